@@ -38,7 +38,7 @@ ASSUMPTIONS = [
     "rates are observed with int concentrations and int/Fraction rate constants (exact arithmetic in the library)",
 ]
 
-QUICK = [("build_q", ["GenSubstance", "GenReaction", "Build", "GenFinish"], 200, 12),
+QUICK = [("build_q", ["GenSubstance", "GenReaction", "Build", "GenFinish"], 160, 12),
          ("inact_q", ["GenReaction", "GenReverse", "Build"], 160, 14),
          ("third_q", ["GenReaction", "Build"], 160, 9)]
 THOROUGH = [("build_t", [], None, 400), ("inact_t", [], None, 250), ("build3_t", [], None, 150),
@@ -588,7 +588,7 @@ def run(ctx):
     ctx.exhaustive = not ctx.quick
 
     # code -> spec: seeded formula-defined systems beyond the pool
-    n = 150 if ctx.quick else 6000
+    n = 120 if ctx.quick else 6000
     items = []
     for i in range(n):
         names, rx = seeded_system(ctx.rng)
